@@ -11,12 +11,19 @@ pub fn span_to_range(source: &[char], span: Span) -> Range {
     Range { start, end }
 }
 
+/// The index just past each line terminator of `source`.
+/// The LSP specification ends a line at `\n`, at `\r\n` and at a `\r` that is not followed by `\n`.
+fn line_start_indices(source: &[char]) -> impl Iterator<Item = usize> + '_ {
+    source.iter().enumerate().filter_map(|(idx, c)| match c {
+        '\n' => Some(idx + 1),
+        '\r' if source.get(idx + 1) != Some(&'\n') => Some(idx + 1),
+        _ => None,
+    })
+}
+
 fn index_to_position(source: &[char], index: usize) -> Position {
-    let before = &source[0..index];
-    let newline_indices: Vec<_> = before
-        .iter()
-        .enumerate()
-        .filter_map(|(idx, c)| if *c == '\n' { Some(idx + 1) } else { None })
+    let newline_indices: Vec<_> = line_start_indices(source)
+        .take_while(|line_start| *line_start <= index)
         .collect();
 
     let lines = newline_indices.len();
@@ -35,10 +42,7 @@ fn index_to_position(source: &[char], index: usize) -> Position {
 }
 
 fn position_to_index(source: &[char], position: Position) -> usize {
-    let mut newline_indices: Vec<_> = source
-        .iter()
-        .enumerate()
-        .filter_map(|(idx, c)| if *c == '\n' { Some(idx + 1) } else { None })
+    let mut newline_indices: Vec<_> = line_start_indices(source)
         .take(position.line as usize + 1)
         .collect();
 
